@@ -137,7 +137,10 @@ func (w *watchers) handlersCore() []*hdlr {
 				predicate.NewPredicateFuncs(func(o client.Object) bool {
 					cm := o.(*api.ConfigMap)
 					key := cm.Namespace + "/" + cm.Name
-					return key == w.cfg.ConfigMapName || key == w.cfg.TCPConfigMapName
+					// IngressClass parameters reference ConfigMaps from the namespace of the controller,
+					// the tracker knows if the changed one is in use
+					return key == w.cfg.ConfigMapName || key == w.cfg.TCPConfigMapName ||
+						(w.cfg.PodNamespace != "" && cm.Namespace == w.cfg.PodNamespace)
 				}),
 			},
 		},
